@@ -91,7 +91,8 @@ def s_plan(tier):
           (PG.idle_then_submit(1, 0.05, "ok"), 1, PT),
           (at_depth(PG.idle_then_submit(2, 0.05, "ok"), 1), 0, PT)]
     if tier == "thorough":
-        pl += [(at_depth(PG.bursts(2, 0.05), 3), 1, PT), (PG.timeout_resize(1, 3), 2, dict(kinds=("T",)))]
+        pl += [(at_depth(PG.bursts(2, 0.05), 3), 1, PT),
+               (PG.timeout_resize(1, 3), 2, dict(kinds=("T",), t_scope="worker", t_cur="parent:"))]
     return pl
 
 
